@@ -398,6 +398,11 @@ def explore(task_fn, cfg):
         except NotPure:
             obls.append({'id': cfg.task_id + ':in-subset', 'task': cfg.task_id, 'status': 'out-of-subset',
                          'detail': 'effect in pure context'})
+        except Exception as e:
+            if type(e).__name__ != 'NotMergeable':
+                raise
+            obls.append({'id': cfg.task_id + ':in-subset', 'task': cfg.task_id, 'status': 'out-of-subset',
+                         'detail': f'values of different kinds merged at a join point: {e}'})
         except RaiseSignal as e:
             obls.append({'id': cfg.task_id + ':no-unexpected-exception', 'task': cfg.task_id, 'status': 'refuted',
                          'detail': f'uncaught {e.exc}: {e.detail}', 'model': _path_model(ctx),
